@@ -234,6 +234,7 @@ def run(ctx):
     c13.parse_errors_are_errors(ctx, "R05-h")
     parsed_text_accepted_only_without_errors(ctx, "R05-k")
     module_tree_is_always_resolved(ctx, "R05-l")
+    c13.only_a_missing_default_file_is_forgiven(ctx, "R05-m")
     c13.registered_modules_come_from_their_file(ctx, "R05-i")
     c13.resolution_errors_not_overwritten(ctx, "R05-j")
 
